@@ -1,9 +1,10 @@
 // ---------- prelude/dft_layouts (R6): transform-domain containers, reduced to shape + per-limb dependency sets ----------
 // poulpy-hal/src/layouts/{vec_znx_dft,vec_znx_big,vmp_pmat,svp_ppol}.rs: `pub struct VecZnxDft<D, B> { pub data: D, pub n, pub cols, pub size, pub max_size, _phantom }` etc.
 // The byte buffer is kept only as a type parameter; `deps` (ghost) maps (column, limb) to the dependency set of that limb, for every limb of the
-// CAPACITY (limbs beyond `size` keep what they held).
-pub struct VecZnxDft<D, BE> { pub data: D, pub n: usize, pub cols: usize, pub size: usize, pub max_size: usize, pub deps: Ghost<Map<(int, int), ISet<Src>>>, pub _phantom: core::marker::PhantomData<BE> }
-pub struct VecZnxBig<D, BE> { pub data: D, pub n: usize, pub cols: usize, pub size: usize, pub max_size: usize, pub deps: Ghost<Map<(int, int), ISet<Src>>>, pub _phantom: core::marker::PhantomData<BE> }
+// CAPACITY (limbs beyond `size` keep what they held); `rad` (ghost) is the limb radix (base2k) the content is expressed in -- a unit-of-measure tag:
+// adding a coefficient-domain vector of another radix into an accumulator is a (value) error that no dependency set shows.
+pub struct VecZnxDft<D, BE> { pub data: D, pub n: usize, pub cols: usize, pub size: usize, pub max_size: usize, pub deps: Ghost<Map<(int, int), ISet<Src>>>, pub rad: Ghost<int>, pub _phantom: core::marker::PhantomData<BE> }
+pub struct VecZnxBig<D, BE> { pub data: D, pub n: usize, pub cols: usize, pub size: usize, pub max_size: usize, pub deps: Ghost<Map<(int, int), ISet<Src>>>, pub rad: Ghost<int>, pub _phantom: core::marker::PhantomData<BE> }
 // prepared (read-only) operands: one dependency set for the whole object
 pub struct VmpPMat<D, BE> { pub data: D, pub n: usize, pub rows: usize, pub cols_in: usize, pub cols_out: usize, pub size: usize, pub dep: Ghost<ISet<Src>>, pub _phantom: core::marker::PhantomData<BE> }
 pub struct SvpPPol<D, BE> { pub data: D, pub n: usize, pub cols: usize, pub deps: Ghost<Map<int, ISet<Src>>>, pub _phantom: core::marker::PhantomData<BE> }
@@ -17,12 +18,12 @@ impl<D, BE> VecZnxDft<D, BE> {
 //@extract poulpy-hal/src/layouts/vec_znx_dft.rs::set_size impl="impl<D: DataMut, B: Backend> VecZnxDft<D, B>"
 //@spec
         requires size <= old(self).max_size
-        ensures final(self).size == size, final(self).n == old(self).n, final(self).cols == old(self).cols, final(self).max_size == old(self).max_size, final(self).deps == old(self).deps
+        ensures final(self).size == size, final(self).n == old(self).n, final(self).cols == old(self).cols, final(self).max_size == old(self).max_size, final(self).deps == old(self).deps, final(self).rad == old(self).rad
 //@end
     // ZnxZero::zero: every coefficient of the whole buffer (capacity) becomes 0
     #[verifier::external_body]
     pub fn zero(&mut self)
-        ensures final(self).size == old(self).size, final(self).n == old(self).n, final(self).cols == old(self).cols, final(self).max_size == old(self).max_size,
+        ensures final(self).size == old(self).size, final(self).n == old(self).n, final(self).cols == old(self).cols, final(self).max_size == old(self).max_size, final(self).rad == old(self).rad,
             forall|i: int, j: int| #[trigger] final(self).dep(i, j) == ISet::<Src>::empty()
     { unimplemented!() }
 }
@@ -34,7 +35,7 @@ impl<D, BE> VecZnxBig<D, BE> {
     pub fn max_size(&self) -> (r: usize) ensures r == self.max_size { self.max_size }
     #[verifier::external_body]
     pub fn zero(&mut self)
-        ensures final(self).size == old(self).size, final(self).n == old(self).n, final(self).cols == old(self).cols, final(self).max_size == old(self).max_size,
+        ensures final(self).size == old(self).size, final(self).n == old(self).n, final(self).cols == old(self).cols, final(self).max_size == old(self).max_size, final(self).rad == old(self).rad,
             forall|i: int, j: int| #[trigger] final(self).dep(i, j) == ISet::<Src>::empty()
     { unimplemented!() }
 }
@@ -59,7 +60,7 @@ pub trait VecZnxDftToRef<BE> {
 pub uninterp spec fn bref<D>(d: D) -> &'static [u8];
 impl<D: DataRef, BE> VecZnxDftToRef<BE> for VecZnxDft<D, BE> {
     open spec fn dref(&self) -> VecZnxDft<&[u8], BE> {
-        VecZnxDft { data: bref(self.data), n: self.n, cols: self.cols, size: self.size, max_size: self.max_size, deps: self.deps, _phantom: core::marker::PhantomData }
+        VecZnxDft { data: bref(self.data), n: self.n, cols: self.cols, size: self.size, max_size: self.max_size, deps: self.deps, rad: self.rad, _phantom: core::marker::PhantomData }
     }
     #[verifier::external_body]
     fn to_ref(&self) -> (r: VecZnxDft<&[u8], BE>) { unimplemented!() }
